@@ -106,6 +106,10 @@ def run_case(case: dict, st=None) -> Tuple[List[dict], str]:
                      f"k={k} scale={case['scale']} ppd={case['ppd']}")
             tp, gp = r.get_peaks()
             tp, gp = np.asarray(tp, dtype=float), np.asarray(gp, dtype=float)
+            # reading the peaks must not change what the result holds (call order of the accessors is the user's choice)
+            tau2, g2_ = sorted_drt(*r.get_drt_data(), np)
+            if len(g2_) != len(g) or not np.array_equal(g2_, g) or not np.array_equal(tau2, tau):
+                viol(f"result-changes-when-read|{cfg}", f"get_drt_data() returns a different distribution after get_peaks() was called (max gamma {float(np.max(g)):.4g} -> {float(np.max(g2_)):.4g}) [{cfg}]")
             lim = (1.3 * 10 ** (1.0 / case["ppd"])) if case["kind"] == "RC" else 2.5
             worst, worst_t = 1.0, None
             for t in taus:
